@@ -505,6 +505,11 @@ int main(int argc, char **argv) {
             c.seed = ic * 12 + ig * 3 + idt;
             g_current = &c;
             run_case(*drivers[il], hydro, prims, c, ref, o);
+            g_current = nullptr;
+            if (ic == it.first && ig == 0 && idt == 0 && !drivers[il]->observation_functions_agree())
+              S.violation("C04:driver:observation-functions-disagree", ord,
+                          "conserved_totals_from_grid / state_in_global_cell_order differ from the driver's cell map",
+                          case_json(c));
             ++S.steps;
             ++S.order_count[c.order];
             if (o.changed)
